@@ -19,8 +19,15 @@ import (
 	. "verifharness/common"
 )
 
-// share (%) of the generated specifiers that have a degenerate part
-const degenerateShare = 8
+// share (%) of the generated specifiers that have a degenerate part (C13_DEGENERATE_SHARE
+// overrides it, for stress runs of this family alone)
+var degenerateShare = EnvInt("C13_DEGENERATE_SHARE", 8)
+
+// share (%) of the generated cases that carry 2-3 further degenerate specifiers, each about a
+// wallet of its own
+var degenerateDense = EnvInt("C13_DEGENERATE_DENSE", 6)
+
+var denseWallets = []string{"D1", "D2", "D3"}
 
 // account parts that are empty once the anchors are removed: they name the empty account only
 var anchorOnlyParts = []string{"^$", "$", "^", "^$", "$", "^", "$$", "^$$"}
@@ -34,6 +41,10 @@ var doubledAnchorParts = []accountPart{
 	{"^^acc$$", []string{"acc", "^acc$", "accx"}},
 	{"^^.*", []string{"", "x", "acc"}},
 	{".*$$", []string{"", "x", "acc"}},
+	{"^^a.*", []string{"a", "abc", "^a", "xa"}},
+	{"^^Validator[0-9]+", []string{"Validator1", "Validator12", "^Validator1", "Validator"}},
+	{"^^acc$", []string{"acc", "^acc", "accx"}},
+	{"^^(acc|val)", []string{"acc", "val", "^acc", "accx"}},
 	{"$^", []string{"", "x", "$^"}},
 	{"a^", []string{"a", "a^", "ax"}},
 	{"$a", []string{"a", "$a", "xa"}},
@@ -52,12 +63,12 @@ var degenerateNames = []string{"", "x", "acc", "a", "Validator1", "$", "^", "^$"
 func genDegenerateAccountPart(r *Rand) accountPart {
 	names := []string{"", pick(r, degenerateNames), pick(r, otherNames)}
 	switch k := r.Intn(100); {
-	case k < 45:
+	case k < 38:
 		return accountPart{pick(r, anchorOnlyParts), names}
-	case k < 60:
+	case k < 64:
 		p := pick(r, doubledAnchorParts)
 		return accountPart{p.text, append(append([]string{}, p.names...), pick(r, otherNames))}
-	case k < 80:
+	case k < 82:
 		return accountPart{pick(r, emptyGroupParts), names}
 	default:
 		return accountPart{pick(r, everythingParts), append(names, "a\nb")}
